@@ -13,7 +13,7 @@
 //! `apply_snapshot_from_file`, `TtlLease::get_expiration`.  crash = copy of the data directory taken
 //! while the engine is open (process-crash image: everything written is visible, nothing from Drop).
 use bytes::Bytes;
-use d_engine_core::{ApplyEntry, Command, StateMachine};
+use d_engine_core::{ApplyEntry, Command, Lease, StateMachine};
 use d_engine_proto::common::LogId;
 use d_engine_proto::server::storage::SnapshotMetadata;
 use d_engine_server::storage::{verif_clock, TtlLease};
@@ -166,6 +166,9 @@ async fn exec_async(case: &str) -> String {
 }
 
 fn exec(case: &str) -> String {
+    if std::env::var("DV_DEBUG").is_ok() {
+        std::panic::set_hook(Box::new(|i| eprintln!("PANIC: {}", i)));
+    }
     let rt = tokio::runtime::Builder::new_current_thread().enable_all().build().unwrap();
     rt.block_on(exec_async(case))
 }
